@@ -24,6 +24,7 @@ def analyse(run, case) -> None:
     mon_c13(run, case, stmts)
     mon_c14(run, case, stmts)
     mon_c07(run, case, stmts)
+    mon_c09_items(run, case, stmts)
 
 
 # ------------------------------------------------------------------------------------------------ C01
@@ -155,6 +156,45 @@ def mon_c07(run, case, stmts):
         if inv.get("outcome") in ("deadlock", "time_cap"):
             run.v("C07", "invocation_never_returns", inv["outcome"],
                   f"invocation {inv['inv']} ended in {inv['outcome']}: blocked tasks {inv.get('deadlock_info')}")
+
+
+# ------------------------------------------------------------------------------------------------ C09 (generic half)
+
+
+def _cannot_fail(body) -> bool:
+    for s in body:
+        if s["op"] in ("sleep", "log"):
+            continue
+        if s["op"] == "step" and s["beh"]["kind"] in ("ret", "big", "ticket") and s.get("serdes") in (None, "json"):
+            continue
+        return False
+    return True
+
+
+def mon_c09_items(run, case, stmts):
+    """Faithful reporting, for every map/parallel of every workflow case: a branch made only of steps that always
+    succeed is never reported FAILED, and a SUCCEEDED item of constant steps carries exactly their values."""
+    for o in run.obs:
+        if o["kind"] not in ("map", "parallel") or o["out"] != "value":
+            continue
+        s = stmts.get(o["path"])
+        br = o["value"]
+        if s is None or not hasattr(br, "all"):
+            continue
+        for it in br.all:
+            body = s["body"] if s["op"] == "map" else (s["branches"][it.index] if it.index < len(s["branches"]) else None)
+            if body is None or not _cannot_fail(body) or (s.get("pads") and s["pads"][it.index:it.index + 1] not in ([], [0])):
+                continue
+            stv = it.status.value
+            if stv == "FAILED":
+                big = any(x["op"] == "step" and x["beh"]["kind"] == "big" for x in body)
+                run.v("C09", "item_status_wrong", "FAILED:branch-cannot-fail" + (":large-result" if big else ""),
+                      f"{o['path']}[{it.index}] (invocation {o['inv']}): reported FAILED with {it.error.type if it.error else None}({(it.error.message if it.error else '')[:120]!r}) "
+                      f"but the branch consists of steps that always succeed")
+            elif stv == "SUCCEEDED" and all(x["op"] == "step" and x["beh"]["kind"] == "ret" and not x.get("mutate") and x.get("serdes") is None for x in body) and s.get("cfg", {}).get("serdes") is None:
+                want = [from_tagged(x["beh"]["v"]) for x in body]
+                if not teq(it.result, want):
+                    run.v("C09", "item_result_wrong", "SUCCEEDED:constant-steps", f"{o['path']}[{it.index}] (invocation {o['inv']}): result {it.result!r}, the branch returned {want!r}")
 
 
 # ------------------------------------------------------------------------------------------------ C08
